@@ -159,7 +159,10 @@ def install(eng):
             raise Unsupported("int() of symbolic non-number")
         if hasattr(v, "pyvc_int"):
             return v.pyvc_int()
-        return int(v)
+        try:
+            return int(v)
+        except (ValueError, TypeError, OverflowError) as ex:
+            raise PyRaise(PyExc(type(ex), ex.args))
 
     def py_float(v=0.0):
         if isinstance(v, (SymInt, SymBool)):
@@ -170,7 +173,10 @@ def install(eng):
             raise Unsupported("float() of symbolic non-number")
         if hasattr(v, "pyvc_float"):
             return v.pyvc_float()
-        return float(v)
+        try:
+            return float(v)
+        except (ValueError, TypeError) as ex:
+            raise PyRaise(PyExc(type(ex), ex.args))
 
     def py_bool(v=False):
         if isinstance(v, SymBool):
@@ -221,9 +227,30 @@ def install(eng):
             acc = pick(acc, v)
         return acc
 
+    def _extreme_kw(a, k, is_max):
+        """max/min with key= / default= on a concrete collection"""
+        if set(k) - {"key", "default"}:
+            raise PyRaise(PyExc(TypeError, ("unexpected keyword",)))
+        vals = list(a) if len(a) > 1 else eng.iterate(a[0])
+        if not isinstance(vals, (list, tuple)):
+            raise Unsupported("max/min with key/default on a symbolic collection")
+        if not vals:
+            if "default" in k:
+                return k["default"]
+            raise PyRaise(PyExc(ValueError, ("arg is an empty sequence",)))
+        key = k.get("key")
+        keys = [eng.call(key, [v], {}) for v in vals] if key is not None else list(vals)
+        if any(isinstance(x, Sym) or eng.contains_symbolic(x) for x in keys):
+            raise Unsupported("max/min with symbolic keys")
+        best = 0
+        for i in range(1, len(vals)):
+            if (keys[i] > keys[best]) if is_max else (keys[i] < keys[best]):
+                best = i
+        return vals[best]
+
     def py_max(*a, **k):
         if k:
-            raise Unsupported("max with key/default")
+            return _extreme_kw(a, k, True)
         vals = list(a) if len(a) > 1 else a[0]
         if isinstance(vals, SymSeq):
             return _seq_extreme(vals, True)
@@ -249,7 +276,7 @@ def install(eng):
 
     def py_min(*a, **k):
         if k:
-            raise Unsupported("min with key/default")
+            return _extreme_kw(a, k, False)
         vals = list(a) if len(a) > 1 else a[0]
         if isinstance(vals, SymSeq):
             return _seq_extreme(vals, False)
@@ -425,6 +452,34 @@ def install(eng):
         return _orig_isinstance(v, m(T))
 
     B["isinstance"] = isinstance_wrapper
+    eng.type_models = {v: k for k, v in TYPEMAP.items()}  # python type -> its modelled constructor (type(x) is int)
+
+    def py_divmod(a, b):
+        return (eng.floor_div(a, b), eng.py_mod(a, b)) if (isinstance(a, Sym) or isinstance(b, Sym)) else _divmod(a, b)
+
+    def _divmod(a, b):
+        try:
+            return divmod(a, b)
+        except ZeroDivisionError as ex:
+            from .interp import PyRaise
+            raise PyRaise(PyExc(ZeroDivisionError, ex.args))
+    B["divmod"] = py_divmod
+
+    def py_repr(v):
+        if isinstance(v, (int, float, str, bool, type(None))) or (isinstance(v, (list, tuple, dict, set)) and not eng.contains_symbolic(v)):
+            return repr(v)
+        return SymStr(eng.fresh("repr", z3.StringSort()))
+
+    def py_chr(v):
+        if isinstance(v, Sym):
+            raise Unsupported("chr of symbolic")
+        return chr(v)
+
+    def py_ord(v):
+        if isinstance(v, Sym):
+            raise Unsupported("ord of symbolic")
+        return ord(v)
+    B["repr"], B["chr"], B["ord"] = py_repr, py_chr, py_ord
     for ex in ("Exception", "AssertionError", "KeyError", "ValueError", "TypeError",
                "NotImplementedError", "RuntimeError", "AttributeError", "IndexError",
                "ZeroDivisionError", "UnboundLocalError", "NameError", "BaseException",
